@@ -213,6 +213,24 @@ PROPERTIES = {
         assumptions=["format/parse inverse pair ('float-format')", "species lists are concrete instances"],
         explanation="writer and reader executed symbolically on the same in-memory text",
     ),
+    "C16": dict(
+        engines="NAZ",
+        claim="The real get_FLO, get_scdm and get_wannier are traced on symbolic matrices (symbolic grid size and number of states): the returned "
+              "orbitals are orthonormal and have the density matrix of the orbitals they are built from (assumed contracts: eig of a Hermitian positive "
+              "overlap, Q of a pivoted QR is unitary, expm of an anti-Hermitian matrix is unitary); the Wannier gradient is proved anti-Hermitian and the "
+              "rows of the Fermi-orbital matrix R normalised for generic complex input (engine A, small concrete numbers of states); get_Esic is proved to "
+              "store sum_i w_i (E_H[n_i/w_i] + E_xc[n_i/w_i, 0; Nspin=2]) by symbolic execution. The one-electron clause (E_H + E_xc + E_sic = 0) is refuted "
+              "on the pinned tree: the code ADDS the self-interaction energy (known finding).",
+        note="orthonormality of the input orbitals is a pre-condition (post-condition of orth, C04); FOD sets are assumed non-degenerate (R invertible, S positive definite)",
+        modules=["contracts.c16"],
+        level="proof",
+        trusted_base=["CPython (executes the traced control flow)", "in-house non-commutative normaliser (engine N)", "in-house exact-algebra normaliser (engine A)",
+                      "in-house AST->z3 symbolic executor (engine Z)", "z3 5.1"],
+        assumptions=["linalg.eig of a Hermitian positive definite matrix returns S = V D V^H with V unitary, D > 0 (degenerate eigenvalues: eigenvectors assumed orthonormalised)",
+                     "scipy.linalg.qr(pivoting=True) returns a unitary Q", "expm(A) is unitary and expm(-A) = expm(A)^H for anti-Hermitian A",
+                     "get_Ecoul / get_Exc / get_n_single taken as uninterpreted functions in the get_Esic clause"],
+        explanation="operator-algebra tracing of the real localizer code; symbolic execution of the real get_Esic",
+    ),
     "C20": dict(
         engines="ZB",
         claim="Reproducibility as a frame condition: every site of the package where iteration order of unordered collections, random numbers, "
